@@ -46,7 +46,7 @@ PLANS = {
                  'distinct (entry point, status, result shape) outcomes'),
         'assumptions': [_ASSUME_SAN, _ASSUME_REF, 'multi-fault corruptions and byte strings outside the closure are not covered'],
         'targets': _T,
-        'deadline': {'quick': 200, 'thorough': 1800},
+        'deadline': {'quick': 270, 'thorough': 2400},
         'jobs': [
             _job('c02-names', 'names', 'C02', ['pointer_followed', 'forward_pointer_rejected', 'name_agree', 'malformed_rejected']),
             _job('c02-sizes', 'sizes', 'C02', ['size_65535_accepted', 'oversize_rejected', 'nonpositive_alen', 'parse_ok', 'parse_fail']),
@@ -63,7 +63,7 @@ PLANS = {
         'assumptions': [_ASSUME_REF, 'c-ares accepting what the reference calls malformed is not a violation (lenient parsing is allowed by the statement)',
                         'representation limits counted as observations, not violations: unassigned RCODE values reported as SERVFAIL; repeated EDNS option codes collapsed to the last value'],
         'targets': _T,
-        'deadline': {'quick': 200, 'thorough': 1800},
+        'deadline': {'quick': 270, 'thorough': 2400},
         'jobs': [
             _job('c04-names', 'names', 'C04', ['pointer_followed', 'forward_pointer_rejected', 'name_agree', 'agree']),
             _job('c04-rrfault', 'rrfault', 'C04', ['parse_ok', 'parse_fail', 'agree', 'pointer_followed', 'forward_pointer_rejected',
@@ -82,7 +82,7 @@ PLANS = {
                         'a malformed-message error is any of EBADRESP/EBADNAME/EFORMERR/EBADSTR (the parsers forward the record parser status)',
                         'TTLs >= 2^31 in addrttl arrays are not compared (int field)'],
         'targets': _T,
-        'deadline': {'quick': 200, 'thorough': 1800},
+        'deadline': {'quick': 270, 'thorough': 2400},
         'jobs': [
             _job('c18-rrfault', 'rrfault', 'C18', ['parse_ok', 'parse_fail', 'legacy_ok', 'legacy_nodata', 'legacy_badresp', 'legacy_cname_followed',
                                                      'addrttls_filled', 'addrttls_capacity_limited'] + _LEGACY_OK),
@@ -93,7 +93,7 @@ PLANS = {
         'level': 'model_checking',
         'rule': ('bounded-exhaustive: (a) every base message of the RR grammar and every corpus file that parses (flags 0 and all-raw); '
                  '(b) records built through the public setters: every RR type x every key x boundary values, name escape forms in '
-                 'question/owner/RDATA, every ordered selection of 2..4 RRs from 6 suffix-sharing names x {NS,SRV,MX}, first-occurrence '
+                 'question/owner/RDATA, every ordered selection of 2..3 (thorough: 2..5) RRs from 6 (thorough: 7) suffix-sharing names x {NS,SRV,MX}, first-occurrence '
                  'name offsets 16376..16392 and message sizes 65525..65545; (c) ares_dns_write_buf_tcp with prefill {0,1,2,3,17,16383,16384} x '
                  'consumed {0,1,p-1,p} x two messages, frames decoded with the independent decoder; (d) ares_create_query/ares_mkquery '
                  'tables. states = distinct records/base messages, transitions = TCP-frame placements + builder calls, executions = '
